@@ -119,7 +119,9 @@ Proof. vm_compute. repeat split; repeat constructor. Qed.
 
 (** Upsert only: editor.leaf / editor.node call clearOnDifferentChoiceCase under editUpsert alone,
     so an insert or an update of a leaf of case B over a target holding case A succeeds and leaves
-    both cases populated (model and node/edit.go:90,200 agree on this). *)
+    both cases populated (model and node/edit.go:90,200 agree on this; on the real code, module
+    "choice c { case a { leaf x } case b { leaf y } }", reflect target {x:1}, source {y:1}:
+    UpsertFrom leaves {y:1}, InsertFrom and UpdateFrom both leave {x:1 y:1} with a nil error). *)
 Example C09_insert_update_do_not_clear :
   let leaf n g := SLeaf (mkMeta [n] [] true g None) TStr false None in
   let kids := [leaf x61 [(0, 0)]; leaf x62 [(0, 1)]]%nat in
